@@ -68,7 +68,10 @@ def do_import(wt, pid):
         if not os.path.exists(os.path.join(sd, 'patch.diff')):
             continue
         c = confirm(wt, sd)
-        sid = '%s_%s' % (pid, name.replace('seed_', ''))
+        x = name.replace('seed_', '')
+        if os.environ.get('SEED_ROUND') == '2':
+            x = {'a': 'c', 'b': 'd'}.get(x, x)
+        sid = '%s_%s' % (pid, x)
         print(sid, json.dumps({k: c[k] for k in c if k != 'demo_patched_tail'}))
         if c.get('confirmed'):
             dst = os.path.join(VERIF, 'seeded', sid)
